@@ -72,10 +72,12 @@ struct GenOpts {
   bool minRowWidth4H = false;  // C06 domain: rows at least 4 row heights wide
   bool weights = true;
   int maxDegree = 6;
+  double bigNetProb = 0.02;  // high-fanout nets (20..70 pins, cells repeated)
   double obstructionProb = 0.75;
   bool fixedTallOnly = false;
   int rowOrientPattern = -1;  // -1 random
   bool positiveArea = true;   // movable cells have positive width/height
+  bool comb = false;  // a few wide row levels cut into 66..110 segments each by narrow fixed straps
   bool bigFixed = false;  // fixed macros up to half of the row area in each direction: whole density bins are blocked
   bool feasiblePolarity = false;  // only SAME/OPPOSITE polarities, multi-row cells only when enough rows exist
   int fixedOrder = 0;          // 0 shuffled, 1 fixed cells first, 2 fixed cells last
@@ -121,8 +123,65 @@ inline std::string circuitJson(const Circuit &c) {
 }
 
 // ------------------------------------------------------------------------------------------------
+// "Comb": 1..4 wide row levels cut by 66..110 one-unit-wide fixed obstruction straps (power straps), so that the list of
+// free row segments has far more entries per level than there are levels; row-high movable cells that fit between straps.
+inline Circuit genCombCircuit(Rng &rng, const GenOpts &o) {
+  int H = (int)rng.pick(std::vector<int>{1, 2, 5, 10}) * (int)std::min<long long>(o.scale, 100);
+  int unit = (int)std::min<long long>(o.scale, 100);
+  int levels = (int)rng.range(1, 4), straps = (int)rng.range(66, 110), pitch = (int)rng.range(3, 8);
+  int W = (straps + 1) * pitch * unit;
+  int x0 = (int)rng.range(-20, 20) * unit, y0 = (int)rng.range(-20, 20) * H;
+  std::vector<Row> rows;
+  static const CellOrientation rowO[4] = {CellOrientation::N, CellOrientation::FS, CellOrientation::S, CellOrientation::FN};
+  int pattern = (int)rng.range(0, 2);
+  for (int l = 0; l < levels; ++l)
+    rows.emplace_back(x0, x0 + W, y0 + l * H, y0 + (l + 1) * H, pattern == 0 ? (l % 2 ? CellOrientation::FS : CellOrientation::N) : pattern == 1 ? CellOrientation::N : rowO[rng.range(0, 3)]);
+  if (rng.chance(0.3)) for (int i = (int)rows.size() - 1; i > 0; --i) std::swap(rows[i], rows[rng.range(0, i)]);
+  int nMov = (int)rng.range(std::max(4, o.minCells), std::max(8, std::min(o.maxCells, 40)));
+  int total = straps + nMov;
+  std::vector<int> w(total), h(total), cx(total), cy(total);
+  std::vector<bool> fx(total), ob(total, true);
+  std::vector<CellRowPolarity> pol(total, CellRowPolarity::ANY);
+  std::vector<CellOrientation> ori(total, CellOrientation::N);
+  std::vector<int> isStrap(total, 0);
+  for (int i = 0; i < straps; ++i) isStrap[i] = 1;
+  if (o.fixedOrder == 0) for (int i = total - 1; i > 0; --i) std::swap(isStrap[i], isStrap[rng.range(0, i)]);
+  else if (o.fixedOrder == 2) std::reverse(isStrap.begin(), isStrap.end());
+  int k = 0;
+  for (int i = 0; i < total; ++i) {
+    if (isStrap[i]) {
+      int lo = 0, hi = levels;
+      if (levels > 1 && rng.chance(0.3)) { lo = (int)rng.range(0, levels - 1); hi = (int)rng.range(lo + 1, levels); }
+      w[i] = unit; h[i] = (hi - lo) * H; fx[i] = true;
+      cx[i] = x0 + (k + 1) * pitch * unit - unit; cy[i] = y0 + lo * H;
+      ++k;
+    } else {
+      w[i] = (int)rng.range(1, pitch - 1) * unit; h[i] = H; fx[i] = false;
+      cx[i] = x0 + (int)rng.range(-3, (straps + 1) * pitch + 3) * unit; cy[i] = y0 + (int)rng.range(-2, levels + 1) * H;
+      if (o.polarity && rng.chance(o.polarityProb)) pol[i] = rng.chance(0.5) ? CellRowPolarity::SAME : CellRowPolarity::OPPOSITE;
+      if (pol[i] == CellRowPolarity::ANY && rng.chance(0.3)) ori[i] = UNTURNED4[rng.range(0, 3)];
+    }
+  }
+  Circuit c(total);
+  c.setCellWidth(w); c.setCellHeight(h); c.setCellIsFixed(fx); c.setCellIsObstruction(ob);
+  c.setCellX(cx); c.setCellY(cy); c.setCellRowPolarity(pol); c.setCellOrientation(ori); c.setRows(rows);
+  int nNets = (int)rng.range(0, o.maxNets);
+  for (int n = 0; n < nNets; ++n) {
+    int deg = (int)rng.range(2, 4);
+    std::vector<int> cells, xo, yo;
+    for (int j = 0; j < deg; ++j) { int cc = (int)rng.range(0, total - 1); cells.push_back(cc); xo.push_back((int)rng.range(0, w[cc])); yo.push_back((int)rng.range(0, h[cc])); }
+    c.addNet(cells, xo, yo, 1.0f);
+  }
+  c.hasCellSizeUpdate_ = false;
+  c.hasNetUpdate_ = false;
+  c.check();
+  return c;
+}
+
+// ------------------------------------------------------------------------------------------------
 // Generator of circuits in the C01 domain
 inline Circuit genCircuit(Rng &rng, const GenOpts &o) {
+  if (o.comb) return genCombCircuit(rng, o);
   long long sc = o.scale;
   long long scy = o.rowHeightOverride > 0 ? o.rowHeightOverride : sc;  // y scale
   int H = (int)(rng.pick(std::vector<int>{1, 2, 3, 4, 5, 8, 10, 12}) * scy);
@@ -275,6 +334,7 @@ inline Circuit genCircuit(Rng &rng, const GenOpts &o) {
   int nNets = (int)rng.range(0, o.maxNets);
   for (int n = 0; n < nNets; ++n) {
     int deg = rng.chance(0.1) ? 1 : (int)rng.range(2, std::min(o.maxDegree, std::max(2, total + 1)));
+    if (o.maxDegree > 2 && rng.chance(o.bigNetProb)) deg = (int)rng.range(20, 70);
     std::vector<int> cells, xo, yo;
     if (o.centredPins && rng.chance(0.6)) {
       // pins in pairs that are symmetric about the cell centre: the exact right-hand side of the quadratic system
@@ -739,12 +799,14 @@ inline GenOpts makeProfile(Rng &rng, const std::string &name) {
     o.utilLo = 0.85; o.utilHi = 1.1; o.maxCells = 60;
   } else if (name == "obstruction") {
     o.maxFixed = 6; o.obstructionProb = 0.95;
+  } else if (name == "comb") {
+    o.comb = true; o.multiRow = false; o.turned = false; o.polarityProb = 0.2; o.maxNets = 25; o.maxCells = 40;
   } else if (name == "blocked") {
     o.maxFixed = 8; o.obstructionProb = 1.0; o.bigFixed = true; o.maxRows = 12; o.minCells = 8; o.maxCells = 40; o.utilHi = 0.6;
   } else if (name == "manyfixed") {
     o.maxFixed = 10; o.obstructionProb = 0.5; o.maxNets = 25;
   } else if (name == "nets") {
-    o.maxNets = 40; o.maxCells = 40; o.utilHi = 0.7;
+    o.maxNets = 40; o.maxCells = 40; o.utilHi = 0.7; o.bigNetProb = 0.08;
   } else if (name == "big") {
     o.scale = (int)rng.pick(std::vector<int>{100, 1000, 5000, 13000});
   } else if (name == "wide") {
